@@ -1,17 +1,131 @@
-"""Replay: look for / re-run a concrete failing input against the real code (vp-replay binary, CLI scenarios)."""
+"""Replay: look for / re-run a concrete failing input against the real code (vp-replay binary built from /repo's working tree).
+
+Replay never decides a property.  It is consulted only after the verifier has reported a failed obligation; the oracle of
+the property (its statement, checked on one concrete input by parsing input and output with typst-syntax) is run over the
+committed corpus (tests/fixtures of the repository + replay/corpus), skipping the inputs on which the oracle already fails on
+the unchanged tree (replay/baseline_failures.json: known findings).  A hit is attached to the VIOLATION line's replay file; a miss
+yields `no-failing-input-found`."""
 from __future__ import annotations
-import json, os, subprocess, sys
+import glob, json, os, subprocess, sys, tempfile
 
 VERIF = os.path.dirname(os.path.dirname(os.path.abspath(__file__)))
+REPO = os.environ.get('VP_REPO', '/repo')
+TARGET = os.path.join(VERIF, 'build', 'replay-target')
+BIN = os.path.join(TARGET, 'debug', 'vp-replay')
+LIB_PROPS = ('C01', 'C04', 'C05', 'C06', 'C07', 'C08', 'C09', 'C10', 'C11', 'C12', 'C13', 'C19')
+_built = {}
+
+
+def build() -> bool:
+    """(Re)build vp-replay against the current working tree of the repository (cargo is incremental)."""
+    if 'ok' in _built:
+        return _built['ok']
+    d = os.path.join(VERIF, 'replay')
+    env = dict(os.environ, CARGO_NET_OFFLINE='true')
+    try:
+        lock = os.path.join(REPO, 'Cargo.lock')
+        if os.path.exists(lock) and not os.path.exists(os.path.join(d, 'Cargo.lock')):
+            import shutil
+            shutil.copy(lock, os.path.join(d, 'Cargo.lock'))
+        p = subprocess.run(['cargo', 'build', '--offline', '--target-dir', TARGET], cwd=d, env=env, capture_output=True, text=True, timeout=900)
+        _built['ok'] = p.returncode == 0 and os.path.exists(BIN)
+        _built['log'] = p.stderr[-2000:]
+    except Exception as e:  # noqa
+        _built['ok'] = False
+        _built['log'] = str(e)
+    return _built['ok']
+
+
+def corpus():
+    fx = sorted(glob.glob(os.path.join(REPO, 'tests', 'fixtures', '**', '*.typ'), recursive=True))
+    own = sorted(glob.glob(os.path.join(VERIF, 'replay', 'corpus', '*.typ')))
+    return own + fx
+
+
+def baseline_failures(pid):
+    try:
+        j = json.load(open(os.path.join(VERIF, 'replay', 'baseline_failures.json')))
+    except (FileNotFoundError, json.JSONDecodeError):
+        return set()
+    return set(j.get(pid, []))
+
+
+def run_oracle(pid, files, widths=None, tabs=None, extra=()):
+    cmd = [BIN, pid]
+    if widths:
+        cmd += ['--widths', ','.join(str(w) for w in widths)]
+    if tabs:
+        cmd += ['--tabs', ','.join(str(t) for t in tabs)]
+    cmd += list(extra) + list(files)
+    try:
+        p = subprocess.run(cmd, capture_output=True, text=True, timeout=1200)
+    except subprocess.TimeoutExpired:
+        return []
+    out = []
+    for l in p.stdout.split('\n'):
+        l = l.strip()
+        if l.startswith('{'):
+            try:
+                out.append(json.loads(l))
+            except json.JSONDecodeError:
+                pass
+    return out
 
 
 def find_failing_input(pid, failure, rec) -> bool:
-    """Try the candidate inputs attached to the obligation; record the first that makes the oracle fail."""
-    return False
+    """Run the property's oracle over the corpus on the real code; record the first input that fails and did not fail before."""
+    if pid in ('C14', 'C15', 'C16'):
+        import cli_replay
+        return cli_replay.find_failing_scenario(pid, rec)
+    if pid not in LIB_PROPS:
+        return False
+    if not build():
+        rec['replay_note'] = 'vp-replay does not build against the current tree: ' + _built.get('log', '')[-400:]
+        return False
+    known = baseline_failures(pid)
+    files = [f for f in corpus() if os.path.relpath(f, REPO if f.startswith(REPO) else VERIF) not in known]
+    hits = run_oracle(pid, files, extra=['--max', '120'])
+    if not hits:
+        rec['replay_note'] = 'oracle of %s holds on all %d corpus inputs at widths 0/20/40/80/120 x tabs 2/4' % (pid, len(files))
+        return False
+    h = hits[0]
+    try:
+        src = open(h['file'], encoding='utf-8').read()
+    except Exception:  # noqa
+        src = None
+    rec['input'] = {'file': h['file'], 'width': h['width'], 'tab': h['tab'], 'reorder': h.get('reorder', False),
+                    'oracle_says': h['why'], 'source': src if src is not None and len(src) < 6000 else None,
+                    'other_failing_inputs': [x['file'] for x in hits[1:6]]}
+    return True
 
 
 def replay_main(pid, path) -> int:
+    """Re-run the recorded input of a replay file against the real code; exit 1 if the violation reproduces."""
     rec = json.load(open(path))
-    print(json.dumps({k: rec.get(k) for k in ('property', 'obligation', 'function', 'clause', 'input')}, indent=1))
+    print(json.dumps({k: rec.get(k) for k in ('property', 'obligation', 'function', 'clause')}, indent=1))
     print(rec.get('verifier_output', ''))
+    inp = rec.get('input')
+    if not inp:
+        print('no concrete input recorded (no-failing-input-found): the replay file names the failed obligation and carries the verifier output')
+        return 0
+    if pid in ('C14', 'C15', 'C16'):
+        import cli_replay
+        return cli_replay.replay_scenario(pid, inp)
+    if not build():
+        print('vp-replay does not build against the current tree')
+        return 2
+    f = inp['file']
+    tmp = None
+    if not os.path.exists(f) and inp.get('source') is not None:
+        tmp = tempfile.NamedTemporaryFile('w', suffix='.typ', delete=False, encoding='utf-8')
+        tmp.write(inp['source'])
+        tmp.close()
+        f = tmp.name
+    hits = run_oracle(pid, [f], widths=[inp['width']], tabs=[inp['tab']])
+    if tmp:
+        os.unlink(tmp.name)
+    if hits:
+        print('REPRODUCED on the real code: %s' % hits[0]['why'])
+        return 1
+    print('not reproduced on the current tree')
     return 0
